@@ -114,7 +114,9 @@ def r82(ctx, wr):
     mm = wr.func('make_metadata')
     s = src(mm)
     ctx.ob('R8.2', 'writer.make_metadata:one-metadata-entry-per-partition-column',
-           "for column in partition_cols" in s and "pandas_metadata['partition_columns'].append(get_column_metadata(data[column], column))" in s,
+           "for column in partition_cols" in s and ("pandas_metadata['partition_columns'].append(get_column_metadata(data[column], column))" in s or
+                                                     ("'partition_columns': [get_column_metadata(data[column], column) for column in partition_cols]" in s) or
+                                                     ("[get_column_metadata(data[column], column) for column in partition_cols]" in s and "'partition_columns': partition_columns" in s)),
            '', wr.loc(mm))
     ctx.ob('R8.2', 'writer.make_metadata:ignored-columns-skipped-in-the-schema',
            'if column in ignore_columns' in s, '', wr.loc(mm))
@@ -145,7 +147,10 @@ def r83(ctx, wr, api, ut, core):
            "('dir%i' % i, v) for i, v in enumerate(rg.columns[0].file_path.split('/')[:-1])" in s2, '', core.loc(rr))
     pc = api.func('paths_to_cats')
     s3 = src(pc)
-    ctx.ob('R8.3', 'api.paths_to_cats:directory-part-split-on-slash', "path.split('/') for path in paths if path" in s3 and '_strip_path_tail(paths)' in s3, '', api.loc(pc))
+    # (the file name is cut off by the helper, or by the helper's expression written in place)
+    tail = "{path.rsplit('/', 1)[0] if '/' in path else '' for path in paths}"
+    cut = ('_strip_path_tail(paths)' in s3 and '_strip_path_tail' in ut.funcs and tail in src(ut.funcs['_strip_path_tail'])) or tail in s3
+    ctx.ob('R8.3', 'api.paths_to_cats:directory-part-split-on-slash', "path.split('/') for path in paths if path" in s3 and cut, '', api.loc(pc))
     pt = api.func('partitions')
     ctx.ob('R8.3', 'api.partitions:values-split-on-slash-or-equals', "re.split('/|=', f_path)[1::2]" in src(pt), '', api.loc(pt))
     ex = ut.func('ex_from_sep')
